@@ -1176,7 +1176,7 @@ def gen_cases(rng, tier, ctx):
             if p is not None:
                 add('rw', b, p, ['merge'])
     # --- make_compatible ---------------------------------------------------------------------------------------------
-    for _ in range(260 * mult):
+    for _ in range(220 * mult):
         b, t = gen_build(rng, tier, meas=rng.random() < 0.2)
         ml, q, sr = rng.choice(TRIPLES)
         if t is not None and rng.random() < 0.5:
@@ -1230,7 +1230,7 @@ def gen_cases(rng, tier, ctx):
         if k == 'unroll':
             return [path or [0], ['unroll']]
         return [path, [k]]
-    for _ in range(260 * mult):
+    for _ in range(220 * mult):
         b, t = gen_build(rng, tier, meas=rng.random() < 0.3)
         steps = [rnd_step() + [rng.random() < 0.5] for _ in range(rng.randint(1, 3))]
         lp, lo = rnd_step()
@@ -1247,6 +1247,26 @@ def gen_cases(rng, tier, ctx):
                               ['cleanup', False, True], ['merge'], ['merge'], ['split', None]])
         cases.append({'kind': 'rw', 'build': b, 'prefix': [rnd_step() + [False] for _ in range(rng.randint(0, 2))],
                       'path': lp, 'op': lo, 'volatile': True})
+    # directed: split preference (fixed before volatile, rightmost of each kind) and merging below a measured parent
+    for _ in range(40 * mult):
+        chans = ['A']
+        kids = []
+        for _k in range(rng.randint(2, 4)):
+            r = rng.choice([1, 2, 2, 3])
+            kids.append({'r': r, 'w': g_leafwf(rng, chans, False), 'm': [], 'c': [], 'v': rng.random() < 0.5})
+        t = {'r': rng.choice([1, 2]), 'w': None, 'm': [], 'c': kids, 'v': rng.random() < 0.3}
+        cases.append({'kind': 'rw', 'build': {'tree': t, 'style': 'ctor', 'read_dur': False}, 'prefix': [],
+                      'path': [], 'op': ['split', None], 'volatile': True})
+    for _ in range(30 * mult):
+        chans = ['A']
+        leaf = {'r': rng.choice([1, 2]), 'w': g_leafwf(rng, chans, False), 'm': [], 'c': [], 'v': rng.random() < 0.5}
+        mid = {'r': rng.choice([1, 1, 2]), 'w': None, 'm': [1] if rng.random() < 0.3 else [], 'c': [leaf],
+               'v': rng.random() < 0.6}
+        top = {'r': rng.choice([1, 2]), 'w': None, 'm': [0] if rng.random() < 0.7 else [], 'c': [mid], 'v': rng.random() < 0.3}
+        root = {'r': 1, 'w': None, 'm': [], 'c': [top, dict(leaf, v=False)], 'v': False}
+        cases.append({'kind': 'rw', 'build': {'tree': root, 'style': 'ctor', 'read_dur': False}, 'prefix': [],
+                      'path': rng.choice([[0], [0], []]),
+                      'op': rng.choice([['merge'], ['cleanup', True, True], ['flatten', 1], ['flatten', 2]]), 'volatile': True})
     # --- recorded parent_index (Model_idx.v): unroll / unroll_children / encapsulate / split, some with a broken invariant
     for _ in range(150 * mult):
         b, t = gen_build(rng, tier, meas=rng.random() < 0.2, zero=rng.random() < 0.1)
@@ -1275,7 +1295,7 @@ def gen_cases(rng, tier, ctx):
     # --- decimal durations (inexact floating point; tolerance 2^-30) ---------------------------------------------------
     cases.extend(gen_dec(rng, tier))
     # --- to_waveform -------------------------------------------------------------------------------------------------
-    for _ in range(200 * mult):
+    for _ in range(150 * mult):
         b, t = gen_build(rng, tier, meas=False)
         add('twf', b)
     # --- smallest_factor_ge ------------------------------------------------------------------------------------------
@@ -1369,7 +1389,7 @@ def gen_dec(rng, tier):
             add(leaf_rep, sr, [], ['flatten', 1])
             add(node([leaf(n)]), sr, [], ['unroll_children'])
             add(node([leaf(n), leaf(2)]), sr, [], ['split', 0])
-    for _ in range({'quick': 170, 'thorough': 2500}[tier]):
+    for _ in range({'quick': 140, 'thorough': 2500}[tier]):
         den, ks = rng.choice(fams)
         t = g_dec_tree(rng, den, ks, rng.randint(1, 3))
         sr = F(den * rng.choice([1, 1, 2, 3]))
